@@ -183,6 +183,122 @@ pub fn duplicate_table(env: &Env, fs: &[F]) -> Vec<(String, i32)> {
     v
 }
 
+/// Evaluate `batch` in every variant (order, entry point, observer, hash seed) and compare each
+/// position with `refs` (raw sets over the graph's context). `oracles` names the violated clause
+/// for (same order, permuted, repeated).
+pub fn run_variants(env: &Env, batch: &[F], refs: &[Gcv], variants: &[Variant], rep: &mut Report, oracles: [&str; 3], what: &str) {
+    run_variants_judged(env, batch, refs, variants, rep, oracles, what, &|_| true)
+}
+
+/// As [run_variants]; only positions holding a batch member `i` with `judge(i)` are compared.
+#[allow(clippy::too_many_arguments)]
+pub fn run_variants_judged(env: &Env, batch: &[F], refs: &[Gcv], variants: &[Variant], rep: &mut Report, oracles: [&str; 3], what: &str, judge: &dyn Fn(usize) -> bool) {
+    let n = batch.len();
+    for (vi, v) in variants.iter().enumerate() {
+        if v.order.iter().any(|i| *i >= n) || v.order.is_empty() {
+            continue;
+        }
+        let fs: Vec<F> = v.order.iter().map(|i| batch[*i].clone()).collect();
+        if v.mode.plain_only() && fs.iter().any(|f| !f.is_plain()) {
+            continue;
+        }
+        let mut obs_log = None;
+        let r = isolated(v.hash_seed, || {
+            let mut obs = Observer::new(v.obs.clone(), &env);
+            let r = evalx::eval_batch(&env, &fs, v.mode, &mut obs);
+            r.map(|x| (x, obs.log.clone()))
+        });
+        let ok = match r {
+            Outcome::Ok((sets, log)) => {
+                obs_log = Some(log);
+                Outcome::Ok(sets)
+            }
+            Outcome::Err(e) => Outcome::Err(e),
+            Outcome::Panic(p) => Outcome::Panic(p),
+        };
+        rep.event(format!(
+            "variant {vi} {} {:?} {}",
+            v.mode.name(),
+            v.order,
+            match &ok {
+                Outcome::Ok(s) => s.iter().map(evalx::set_sig).collect::<Vec<_>>().join(","),
+                o => o.describe(),
+            }
+        ));
+        if let Some(l) = &obs_log {
+            rep.event(format!("observer {vi} calls={} hash={:016x}", l.calls, l.hash));
+            rep.probe("observer_calls", l.calls);
+            rep.probe("observer_reentries", l.reentered);
+            rep.probe("attractor_shortcuts", l.attractor_shortcuts);
+            rep.probe("steady_shortcuts", l.steady_shortcuts);
+            rep.probe("restricted_scopes_entered", l.restricted_scopes);
+        }
+        rep.probe(&format!("mode_{}", v.mode.name()), 1);
+        let oracle = if v.order.len() != n {
+            oracles[2]
+        } else if v.order.iter().enumerate().any(|(a, b)| a != *b) {
+            oracles[1]
+        } else {
+            oracles[0]
+        };
+        match ok {
+            Outcome::Ok(sets) => {
+                if sets.len() != fs.len() {
+                    rep.violate(oracle, format!("variant {vi}: {} results for {} formulae", sets.len(), fs.len()));
+                    continue;
+                }
+                for (j, s) in sets.iter().enumerate() {
+                    if !judge(v.order[j]) {
+                        continue;
+                    }
+                    let want = &refs[v.order[j]];
+                    let equal = if v.mode.sanitised() {
+                        // compare in the canonical encoding; if the reference itself cannot be
+                        // sanitised that is not a history effect and is not judged here
+                        match isolated(v.hash_seed ^ 0x55, || Ok(evalx::sanitise(&env, want))) {
+                            Outcome::Ok(w) => evalx::same_set(s, &w),
+                            _ => true,
+                        }
+                    } else {
+                        evalx::same_set(s, want)
+                    };
+                    if !equal {
+                        rep.violate(
+                            oracle,
+                            format!(
+                                "variant {vi} ({}, order {:?}) position {j} `{}`: batch {} (batch vs {what})",
+                                v.mode.name(),
+                                v.order,
+                                fs[j].render(),
+                                evalx::describe_diff(&env, s, want)
+                            ),
+                        );
+                    }
+                }
+            }
+            Outcome::Err(e) => {
+                rep.violate(oracle, format!("variant {vi} ({}): the reference evaluates every formula, the batch returned Err({e})", v.mode.name()));
+            }
+            Outcome::Panic(p) => {
+                // a sanitising entry point that panics on a batch although every member can be
+                // sanitised alone is history dependence; if a member cannot be sanitised alone
+                // either, it is not judged here
+                let mut alone_also = false;
+                if v.mode.sanitised() {
+                    for i in &v.order {
+                        if !matches!(isolated(1, || Ok(evalx::sanitise(&env, &refs[*i]))), Outcome::Ok(_)) {
+                            alone_also = true;
+                        }
+                    }
+                }
+                if !alone_also {
+                    rep.violate(oracle, format!("variant {vi} ({}, order {:?}): the reference evaluates every formula, the batch panicked: {p}", v.mode.name(), v.order));
+                }
+            }
+        }
+    }
+}
+
 pub fn check(world: &World, sc: &C04) -> Report {
     let mut rep = Report::default();
     let env = match world.build() {
@@ -232,107 +348,7 @@ pub fn check(world: &World, sc: &C04) -> Report {
     rep.probe("duplicate_hits_planned", dup.iter().map(|(_, c)| *c as u64).sum());
     rep.probe("duplicates_with_domain", dup.iter().filter(|(s, _)| s.contains("Some(")).count() as u64);
     rep.probe("batches_with_restricted_scope", sc.batch.iter().any(|f| !{ let mut p = Default::default(); let mut d = std::collections::BTreeSet::new(); f.wild_labels(&mut p, &mut d); d.is_empty() }) as u64);
-    // variants
-    for (vi, v) in sc.variants.iter().enumerate() {
-        if v.order.iter().any(|i| *i >= n) || v.order.is_empty() {
-            continue;
-        }
-        let fs: Vec<F> = v.order.iter().map(|i| sc.batch[*i].clone()).collect();
-        if v.mode.plain_only() && fs.iter().any(|f| !f.is_plain()) {
-            continue;
-        }
-        let mut obs_log = None;
-        let r = isolated(v.hash_seed, || {
-            let mut obs = Observer::new(v.obs.clone(), &env);
-            let r = evalx::eval_batch(&env, &fs, v.mode, &mut obs);
-            r.map(|x| (x, obs.log.clone()))
-        });
-        let ok = match r {
-            Outcome::Ok((sets, log)) => {
-                obs_log = Some(log);
-                Outcome::Ok(sets)
-            }
-            Outcome::Err(e) => Outcome::Err(e),
-            Outcome::Panic(p) => Outcome::Panic(p),
-        };
-        rep.event(format!(
-            "variant {vi} {} {:?} {}",
-            v.mode.name(),
-            v.order,
-            match &ok {
-                Outcome::Ok(s) => s.iter().map(evalx::set_sig).collect::<Vec<_>>().join(","),
-                o => o.describe(),
-            }
-        ));
-        if let Some(l) = &obs_log {
-            rep.event(format!("observer {vi} calls={} hash={:016x}", l.calls, l.hash));
-            rep.probe("observer_calls", l.calls);
-            rep.probe("observer_reentries", l.reentered);
-            rep.probe("attractor_shortcuts", l.attractor_shortcuts);
-            rep.probe("steady_shortcuts", l.steady_shortcuts);
-            rep.probe("restricted_scopes_entered", l.restricted_scopes);
-        }
-        rep.probe(&format!("mode_{}", v.mode.name()), 1);
-        let oracle = if v.order.len() != n {
-            "repeated_batch_vs_alone"
-        } else if v.order.iter().enumerate().any(|(a, b)| a != *b) {
-            "permuted_batch_vs_alone"
-        } else {
-            "batch_vs_alone"
-        };
-        match ok {
-            Outcome::Ok(sets) => {
-                if sets.len() != fs.len() {
-                    rep.violate(oracle, format!("variant {vi}: {} results for {} formulae", sets.len(), fs.len()));
-                    continue;
-                }
-                for (j, s) in sets.iter().enumerate() {
-                    let want = &refs[v.order[j]];
-                    let equal = if v.mode.sanitised() {
-                        // compare in the canonical encoding; if the reference itself cannot be
-                        // sanitised that is not a history effect and is not judged here
-                        match isolated(v.hash_seed ^ 0x55, || Ok(evalx::sanitise(&env, want))) {
-                            Outcome::Ok(w) => evalx::same_set(s, &w),
-                            _ => true,
-                        }
-                    } else {
-                        evalx::same_set(s, want)
-                    };
-                    if !equal {
-                        rep.violate(
-                            oracle,
-                            format!(
-                                "variant {vi} ({}, order {:?}) position {j} `{}`: batch {} (batch vs alone)",
-                                v.mode.name(),
-                                v.order,
-                                fs[j].render(),
-                                evalx::describe_diff(&env, s, want)
-                            ),
-                        );
-                    }
-                }
-            }
-            Outcome::Err(e) => {
-                rep.violate(oracle, format!("variant {vi} ({}): every formula evaluates with sharing disabled, the batch returned Err({e})", v.mode.name()));
-            }
-            Outcome::Panic(p) => {
-                // a sanitising entry point that panics on a batch although every member can be
-                // sanitised alone is history dependence; if a member cannot be sanitised alone
-                // either, it is not judged here
-                let mut alone_also = false;
-                if v.mode.sanitised() {
-                    for i in &v.order {
-                        if !matches!(isolated(1, || Ok(evalx::sanitise(&env, &refs[*i]))), Outcome::Ok(_)) {
-                            alone_also = true;
-                        }
-                    }
-                }
-                if !alone_also {
-                    rep.violate(oracle, format!("variant {vi} ({}, order {:?}): every formula evaluates with sharing disabled, the batch panicked: {p}", v.mode.name(), v.order));
-                }
-            }
-        }
-    }
+    run_variants(&env, &sc.batch, &refs, &sc.variants, &mut rep, ["batch_vs_alone", "permuted_batch_vs_alone", "repeated_batch_vs_alone"], "alone");
     if !dup.is_empty() {
         let mut sig = fnv1a(format!("{dup:?}").as_bytes());
         for v in &sc.variants {
@@ -363,7 +379,7 @@ pub fn shrinks(sc: &C04) -> Vec<C04> {
                 v.order = v.order.iter().filter(|x| **x != i).map(|x| if *x > i { *x - 1 } else { *x }).collect();
             }
             s.variants.retain(|v| !v.order.is_empty());
-            if !s.variants.is_empty() {
+            if !s.variants.is_empty() || sc.variants.is_empty() {
                 out.push(s);
             }
         }
